@@ -823,6 +823,20 @@ func (ai *absInt) exec(info *types.Info, fi *FuncInfo, s ast.Stmt, st *astate) *
 			if call, ok := unparen(x.Rhs[0]).(*ast.CallExpr); ok {
 				rs = ai.evalCall(info, call, n)
 			}
+			// `v, found := table[k]` on a package-level map literal that nothing modifies, k a known constant
+			if ix, ok := unparen(x.Rhs[0]).(*ast.IndexExpr); ok && len(x.Lhs) == 2 {
+				if tbl, isTbl := ai.frozenTable(info, ix.X); isTbl {
+					if k := ai.evalExpr(info, ix.Index, n); !k.top && len(k.set) == 1 {
+						for atom := range k.set {
+							if v, has := tbl[atom]; has {
+								rs = []aval{v, aOf("true")}
+							} else {
+								rs = []aval{aTop(), aOf("false")}
+							}
+						}
+					}
+				}
+			}
 			for i, l := range x.Lhs {
 				v := aTop()
 				if i < len(rs) {
@@ -1196,4 +1210,79 @@ func (ai *absInt) frozenGlobal(o types.Object) (aval, bool) {
 		}
 	}
 	return aval{}, false
+}
+
+// frozenTable: e names a package-level map initialised by a composite literal with constant keys
+// and never stored into afterwards; returns key atom -> abstract value of the element.
+func (ai *absInt) frozenTable(info *types.Info, e ast.Expr) (map[string]aval, bool) {
+	id, ok := unparen(e).(*ast.Ident)
+	if !ok {
+		return nil, false
+	}
+	o, isVar := info.Uses[id].(*types.Var)
+	if !isVar || o.Pkg() == nil || o.Parent() != o.Pkg().Scope() || !inRepoObj(o) {
+		return nil, false
+	}
+	for _, p := range ai.c.All {
+		if p.Types != o.Pkg() {
+			continue
+		}
+		var lit *ast.CompositeLit
+		touched := false
+		for _, f := range p.Syntax {
+			ast.Inspect(f, func(n ast.Node) bool {
+				switch x := n.(type) {
+				case *ast.ValueSpec:
+					for i, nm := range x.Names {
+						if p.TypesInfo.Defs[nm] == o && i < len(x.Values) {
+							lit, _ = unparen(x.Values[i]).(*ast.CompositeLit)
+						}
+					}
+				case *ast.AssignStmt:
+					for _, l := range x.Lhs {
+						if b := baseIdent(l); b != nil && p.TypesInfo.Uses[b] == o {
+							touched = true
+						}
+					}
+				case *ast.UnaryExpr:
+					if x.Op == token.AND {
+						if b := baseIdent(x.X); b != nil && p.TypesInfo.Uses[b] == o {
+							touched = true
+						}
+					}
+				case *ast.CallExpr:
+					if fid, isId := x.Fun.(*ast.Ident); isId && fid.Name == "delete" && len(x.Args) > 0 {
+						if b := baseIdent(x.Args[0]); b != nil && p.TypesInfo.Uses[b] == o {
+							touched = true
+						}
+					}
+				}
+				return true
+			})
+		}
+		if lit == nil || touched {
+			return nil, false
+		}
+		if _, isMap := p.TypesInfo.TypeOf(lit).Underlying().(*types.Map); !isMap {
+			return nil, false
+		}
+		out := map[string]aval{}
+		for _, el := range lit.Elts {
+			kv, isKV := el.(*ast.KeyValueExpr)
+			if !isKV {
+				return nil, false
+			}
+			ktv, has := p.TypesInfo.Types[kv.Key]
+			if !has || ktv.Value == nil {
+				return nil, false
+			}
+			v := aTop()
+			if vtv, hasV := p.TypesInfo.Types[kv.Value]; hasV && vtv.Value != nil {
+				v = aOf(constAtom(vtv.Value))
+			}
+			out[constAtom(ktv.Value)] = v
+		}
+		return out, true
+	}
+	return nil, false
 }
